@@ -67,3 +67,35 @@ pub open spec fn named_tail_ok(r: Expr, inst_ty: Ty, arg_types: Seq<Ty>, args_ta
     &&& c1.len() > 0
     &&& (c1.last() matches Constraint::TypeEqual(l, rr) && l == inst_ty && (rr matches Ty::TFunc { params, ret_ty: rt } && params@ == arg_types && *rt == ret_ty))
 }
+
+// ---- the arguments of a call by name (fragment call_named_args): checked against the callee's parameter types ----
+// r is an elaboration of e in checking mode against `expected` (Typer::check_expr: the result is constrained to that type)
+pub uninterp spec fn checked_as(e: ExprId, expected: Ty, r: Expr) -> bool;
+pub uninterp spec fn is_inst(scheme: Ty, t: Ty) -> bool;                          // Typer::inst_ty (U-INST)
+pub uninterp spec fn fn_type_of(genv: PackageTypeEnv, hint: Seq<char>) -> Option<Ty>;
+#[verifier::external_body]
+pub fn lookup_function_type_by_hint(genv: &PackageTypeEnv, hint: &str) -> (r: Option<Ty>) ensures r == fn_type_of(*genv, hint@) { unimplemented!() }
+impl Typer {
+    #[verifier::external_body]
+    pub fn check_expr(&mut self, genv: &PackageTypeEnv, local_env: &mut LocalTypeEnv, diagnostics: &mut Diagnostics, e: ExprId, expected: &Ty) -> (r: Expr)
+        ensures checked_as(e, *expected, r),
+    { unimplemented!() }
+    #[verifier::external_body] pub fn inst_ty(&mut self, ty: &Ty) -> (r: Ty) ensures is_inst(*ty, r) { unimplemented!() }
+}
+pub open spec fn named_args_ok(genv: PackageTypeEnv, hint: Seq<char>, args: Seq<ExprId>, r: Option<(Ty, Vec<Expr>, Vec<Ty>)>) -> bool {
+    match r {
+        None => fn_type_of(genv, hint) is None,
+        Some(t) => {
+            let (inst, a, tys) = t;
+            &&& fn_type_of(genv, hint) matches Some(ft) && is_inst(ft, inst)
+            &&& a@.len() == args.len() && tys@.len() == args.len()
+            &&& forall|i: int| 0 <= i < args.len() ==> #[trigger] tys@[i] == expr_ty(a@[i])
+            // the declared parameter list fits the call: every argument is CHECKED against its parameter's type, in order ..
+            &&& (inst matches Ty::TFunc { params, .. } && params@.len() == args.len() && args.len() > 0)
+                    ==> forall|i: int| 0 <= i < args.len() ==> checked_as(#[trigger] args[i], (inst->TFunc_params)@[i], a@[i])
+            // .. otherwise (arity mismatch: the equation of the two function types will fail) each argument is at least elaborated, in order
+            &&& !(inst matches Ty::TFunc { params, .. } && params@.len() == args.len() && args.len() > 0)
+                    ==> forall|i: int| 0 <= i < args.len() ==> inferred(#[trigger] args[i], a@[i])
+        }
+    }
+}
